@@ -8,12 +8,12 @@ HERE = os.path.dirname(os.path.dirname(os.path.abspath(__file__)))
 CHECKS = {
  "C05": ("exploration",
          "reference-model history monitor + invariant hook (bounded-exhaustive BFS over slot layouts, long random histories)",
-         "Every operation of the ordered map is applied from every slot layout reachable within a bounded history length (three keys, stale tombstone keys included) and in long random histories over 4/16/200 keys that cross the compaction threshold thousands of times; after every operation all observers (Len, IsZero, Get, Contains, Range incl. early exit and renaming callbacks, ToMap, ToMapRecursive, both encoders re-read with independent readers, Equal against an independently built twin, perturbed twins and a pool of reached states) are compared with a list-of-pairs model and the index/slot invariant hook is evaluated. Held on the executions observed; not a proof.",
+         "Every operation of the ordered map is applied from every slot layout reachable within a bounded history length (three keys, stale tombstone keys included) and in long random histories over 4/16/200 keys and an alphabet of look-alike and control-character keys that cross the compaction threshold thousands of times, started from empty maps and from maps built with MapFromItems out of a caller-owned slice (which, like a sibling built from it, must stay untouched); after every operation all observers (Len, IsZero, Get, Contains, Range incl. early exit and renaming callbacks, ToMap, ToMapRecursive, both encoders re-read with independent readers, Equal against an independently built twin, perturbed twins and a pool of reached states) are compared with a list-of-pairs model and the index/slot invariant hook is evaluated. Held on the executions observed; not a proof.",
          "Trusts the list-of-pairs model, encoding/json's token reader and yaml.v3's Node reader as independent readers; values are opaque to the map so layouts, not values, are enumerated.",
          "DESIGN.md §2 C05"),
  "C10": ("exploration",
          "reference-model monitor: sequential env-fold model vs Interpolate over generated env blocks x flag x five caller environments (incl. the internal env through a hook)",
-         "Random env blocks (chains, forward references, names built by expansion and colliding, empty names, runtime overlaps, failing expansions) are interpolated by the real code and by a sequential fold model that rewrites a list-of-pairs block in place and feeds a model environment; block order and contents, a probe string in a step and the caller's environment (harness case-sensitive/-insensitive, the library's internal env in both modes, nil) must agree for both settings of the runtime-precedence flag. Held on the executions observed.",
+         "Random env blocks (chains, forward references, names built by expansion and colliding, empty names, runtime overlaps, failing expansions) are interpolated by the real code and by a sequential fold model that rewrites a list-of-pairs block in place and feeds a model environment; block order and contents, a probe string in a step and the caller's environment (harness case-sensitive/-insensitive, the library's internal env in both modes, nil) must agree for both settings of the runtime-precedence flag; env blocks built with MapFromItems from one slice for two pipelines, and a caller environment that is a zero-valued stateless struct, are included. Held on the executions observed.",
          "Trusts github.com/buildkite/interpolate (a dependency, not code under test) for single-string expansion and the list-of-pairs model; state after a failed expansion is not compared.",
          "DESIGN.md §2 C10"),
  "C11": ("exploration",
@@ -93,12 +93,12 @@ CHECKS = {
          "DESIGN.md §2 C13"),
  "C16": ("exploration",
          "reference-model monitor: struct types built with reflect.StructOf from a harness-owned descriptor; expected key partition derived from the descriptor; yaml.v3's decoder as reference on the alias-free subset",
-         "For thousands of generated target types (scalar/slice/map/any/nested/pointer fields, tagged/untagged/skipped/omitempty fields, alias lists, inline map / inline struct / inline pointer incl. nested catch-alls) and well-typed documents drawn from the same descriptor (fields addressed by primary, by one of several present aliases, absent, or null; alias next to primary; keys named like skipped fields; the empty key; extras), decoding into sentinel-pre-populated destinations must put every key in exactly one destination by the rule tag > first present alias > catch-all, leave absent fields untouched and zero null ones; for alias-free types and strictly typed documents the result equals yaml.v3's own decoder. Held on the pairs generated.",
+         "For thousands of generated target types (scalar/slice/map/any/nested/pointer fields, tagged/untagged/skipped/omitempty fields, alias lists, inline map / inline struct / inline pointer incl. nested catch-alls) and well-typed documents drawn from the same descriptor (fields addressed by primary, by one of several present aliases, absent, or null; alias next to primary; keys named like skipped fields; the empty key; extras), decoding into sentinel-pre-populated destinations must put every key in exactly one destination by the rule tag > first present alias > catch-all, leave absent fields untouched and zero null ones; for alias-free types and strictly typed documents the result equals yaml.v3's own decoder; two fixed members (ordered-map fields with typed values; self-decoding elements that may answer with a warning) are compared with yaml.v3 on plain-map twins / entry by entry. Held on the pairs generated.",
          "Ill-formed types (an alias equal to another field's key) and append-vs-replace semantics for pre-populated containers are outside the property; yaml.v3 comparison only on the subset yaml.v3 supports.",
          "DESIGN.md §2 C16"),
  "C19": ("exploration",
-         "Go race detector (-race build) over barrier-released 16-goroutine workloads + sequential-vs-concurrent result comparison + deep before/after state monitor (hook slot layout, unexported fields included)",
-         "The monitor binary is built with -race; 16 goroutines run whole life cycles on disjoint documents (results compared with a sequential re-run) and hammer fresh, never-before-observed shared fixtures (an ordered map carrying tombstones, a parsed and signed pipeline, a key set, a private key with a shared step, a plugin) with every observer, results compared with those computed on an identically built twin; race reports are read from the detector's log files and any report with a go-pipeline frame is a violation; sequentially, deep state including unexported fields and the hook's slot layout is compared around every observer. Held on the schedules the Go scheduler produced; the overlap achieved is recorded.",
+         "Go race detector (-race build) over barrier-released 16-goroutine workloads + sequential-vs-concurrent result comparison + deep before/after state monitor (hook slot layout, unexported fields included) + long-lived-process versus fresh-child-process comparison of whole life cycles (history independence)",
+         "The monitor binary is built with -race; 16 goroutines run whole life cycles on disjoint documents (results compared with a sequential re-run) and hammer fresh, never-before-observed shared fixtures (an ordered map carrying tombstones, a parsed and signed pipeline, a key set, a private key with a shared step, a plugin) with every observer, results compared with those computed on an identically built twin; race reports are read from the detector's log files and any report with a go-pipeline frame is a violation; sequentially, deep state including unexported fields, the env map, the key set and the hook's slot layout is compared around every observer; finally the life cycle of generated and corpus documents at the end of the long-lived process is compared with the same life cycle in a fresh child process each (no hidden state carried from one call to the next). Held on the schedules the Go scheduler produced; the overlap achieved is recorded.",
          "The race detector only sees accesses that executed; randomised ECDSA/PSS signatures are compared by verification.",
          "DESIGN.md §2 C19"),
 }
